@@ -25,7 +25,8 @@ def run(ctx):
         "once each; D2 one checkpoint per point (C03.D1); D3 grid_scan derives shape, extents, snaking and the outer_product arguments from "
         "the same chunked arguments; scan / list scans pass their own arguments to the pattern function and the resulting cycler to "
         "scan_nd; D4 every np.linspace binds start/stop/num to the like-named variables and includes the end point; x2x_scan moves the "
-        "second motor over half the range.")
+        "second motor over half the range; D5 move_per_step / one_1d_step command each motor to exactly the step's position, a motor is "
+        "skipped only when its target equals the cached last commanded target exactly, and the cache records what was commanded.")
     # D1
     f = repo.func(PL, "scan_nd.inner_scan_nd")
     loops = [s for s in A.walk_stmts(f.node.body) if isinstance(s, ast.For)]
@@ -112,13 +113,111 @@ def run(ctx):
     cs = [c for c in A.calls_in(x2.node) if A.call_name(c) == "relative_inner_product_scan"]
     ok = bool(cs) and [A.norm(a) for a in cs[0].args] == ["detectors", "num", "motor1", "start", "stop", "motor2", "start / 2", "stop / 2"]
     ctx.ob("C25.D4-linspace-binding", cname(x2, None, "motor2 scans half of motor1's range"), ok, "" if ok else "x2x argument order / halving changed", where=where(x2, x2.node))
+    d5_per_step_moves(ctx, repo)
+
+
+PSM = "bluesky.plan_stubs"
+
+
+def _is_cache_cmp(test, var, cache, key, op):
+    """`var <op> cache[key]` (either operand order), nothing else."""
+    if not (isinstance(test, ast.Compare) and len(test.ops) == 1 and isinstance(test.ops[0], op)):
+        return False
+    a, b = test.left, test.comparators[0]
+    def is_var(e): return isinstance(e, ast.Name) and e.id == var
+    def is_slot(e): return isinstance(e, ast.Subscript) and A.norm(e.value) == cache and A.norm(e.slice) == key
+    return (is_var(a) and is_slot(b)) or (is_slot(a) and is_var(b))
+
+
+def d5_per_step_moves(ctx, repo):
+    """The per-step stubs command exactly the point they are given: a motor of the step is left
+    alone only when its target EQUALS the last commanded target (exact comparison against the
+    position cache), and the cache records what was commanded."""
+    rule = "C25.D5-per-step-commands-the-point"
+    f = repo.func(PSM, "move_per_step")
+    params = [a.arg for a in f.node.args.args]
+    ctx.require(len(params) >= 2, f"{f.key}: (step, pos_cache) parameters")
+    step, cache = params[0], params[1]
+    loops = [s for s in f.node.body if isinstance(s, ast.For) and A.norm(s.iter) == f"{step}.items()" and isinstance(s.target, ast.Tuple) and len(s.target.elts) == 2]
+    ok = len(loops) == 1
+    ctx.ob(rule, cname(f, None, "one loop over every (motor, position) of the step"), ok, "" if ok else "the step is no longer iterated item by item", where=where(f, f.node))
+    if ok:
+        lp = loops[0]
+        motor, pos = (A.norm(e) for e in lp.target.elts)
+        # every way a motor avoids its `set`
+        skips, sets, stores, problems = [], [], [], []
+
+        def scan(body, guards):
+            for s in body:
+                if isinstance(s, ast.If):
+                    scan(s.body, guards + [(s.test, True)])
+                    scan(s.orelse, guards + [(s.test, False)])
+                elif isinstance(s, (ast.Continue, ast.Break, ast.Return)):
+                    skips.append((s, guards))
+                elif isinstance(s, (ast.For, ast.While, ast.Try, ast.With)):
+                    problems.append(f"unexpected {type(s).__name__} in the loop body")
+                else:
+                    for n in A.walk_local(s):
+                        if A.is_msg_yield(n, "set"):
+                            sets.append((s, n, guards))
+                    if isinstance(s, ast.Assign) and any(isinstance(t, ast.Subscript) and A.norm(t.value) == cache for t in s.targets):
+                        stores.append((s, guards))
+        scan(lp.body, [])
+        ok = len(sets) == 1 and [A.norm(a) for a in sets[0][1].value.args[1:3]] == [motor, pos] and not problems
+        ctx.ob(rule, cname(f, None, f"yield Msg('set', {motor}, {pos}, group=...)"), ok,
+               "" if ok else f"the motor is not commanded to the step's position ({[A.norm(x[1]) for x in sets]} {problems})", nontrivial=True, where=where(f, lp))
+        # the skip condition: exact equality against the cache
+        conds = []
+        for s, guards in skips:
+            for t, pol in guards:
+                conds.append((t, pol, "skip"))
+        for s, n, guards in sets:
+            for t, pol in guards:
+                conds.append((t, pol, "set"))
+        ok = True
+        detail = ""
+        for t, pol, kind in conds:
+            want_eq = (kind == "skip") == pol
+            good = _is_cache_cmp(t, pos, cache, motor, ast.Eq if want_eq else ast.NotEq)
+            if not good:
+                ok = False
+                detail = f"a motor of the step is not moved when `{A.norm(t)}` is {'true' if (kind == 'skip') == pol else 'false'}: that is not exact equality of the target with the last commanded target"
+        ok = ok and bool(conds)
+        ctx.ob(rule, cname(f, None, f"a motor is skipped only when {pos} == {cache}[{motor}] exactly"), ok,
+               detail or ("" if ok else "no skip condition found"), nontrivial=True, where=where(f, lp))
+        ok = len(stores) == 1 and A.norm(stores[0][0]) == f"{cache}[{motor}] = {pos}" and bool(sets) and stores[0][1] == sets[0][2] and \
+            stores[0][0].lineno > sets[0][0].lineno
+        ctx.ob(rule, cname(f, None, f"{cache}[{motor}] = {pos} after the set, under the same condition"), ok,
+               "" if ok else "the position cache no longer records exactly what was commanded (a later equal target would be skipped wrongly, or a different one not re-sent)", where=where(f, lp))
+        grp = A.kw(sets[0][1].value, "group") if sets else None
+        waits = [n for s in f.node.body if s is not lp and s.lineno > lp.lineno for n in A.walk_local(s) if A.is_msg_yield(n, "wait")]
+        ok = grp is not None and len(waits) >= 1 and A.kw(waits[0].value, "group") is not None and A.norm(A.kw(waits[0].value, "group")) == A.norm(grp)
+        ctx.ob(rule, cname(f, None, "wait on the group of the sets before the reading"), ok, "" if ok else "the reading is no longer taken after the motors arrived", where=where(f, f.node))
+    g = repo.func(PSM, "one_1d_step.move")
+    o = repo.func(PSM, "one_1d_step")
+    oparams = [a.arg for a in o.node.args.args]
+    sets = [n for n in A.walk_local(g.node) if A.is_msg_yield(n, "set")]
+    ok = len(sets) == 1 and len(oparams) >= 3 and [A.norm(a) for a in sets[0].value.args[1:3]] == oparams[1:3] and \
+        not any(isinstance(s, (ast.If, ast.For, ast.While)) for s in A.walk_stmts(g.node.body))
+    ctx.ob(rule, cname(g, None, "unconditional Msg('set', motor, step)"), ok, "" if ok else "one_1d_step no longer commands the motor to the step unconditionally", nontrivial=True, where=where(g, g.node))
+    waits = [n for n in A.walk_local(g.node) if A.is_msg_yield(n, "wait")]
+    ok = bool(sets) and bool(waits) and A.kw(sets[0].value, "group") is not None and A.kw(waits[0].value, "group") is not None and \
+        A.norm(A.kw(sets[0].value, "group")) == A.norm(A.kw(waits[0].value, "group")) and waits[0].lineno > sets[0].lineno
+    ctx.ob(rule, cname(g, None, "wait on the group of the set"), ok, "" if ok else "the move is not awaited", where=where(g, g.node))
+    n = repo.func(PSM, "one_nd_step")
+    yf = [nn.value for s in n.node.body for nn in A.walk_local(s) if isinstance(nn, ast.YieldFrom) and isinstance(nn.value, ast.Call)]
+    nparams = [a.arg for a in n.node.args.args]
+    ok = bool(yf) and A.call_name(yf[0]) == "move_per_step" and [A.norm(a) for a in yf[0].args] == nparams[1:3]
+    ctx.ob(rule, cname(n, None, "move_per_step(step, pos_cache) with the caller's step and cache"), ok, "" if ok else "one_nd_step passes something else to move_per_step", where=where(n, n.node))
+    ctx.expect(rule, 8)
 
 
 CLAIM = {
     "text": "Does not decide trajectory values. Decides that step scans perform exactly one per_step per point of the cycler in order and record "
             "num_points = len(cycler); that each point starts with a checkpoint; that grid_scan's shape / extents / snaking metadata and its "
             "outer_product arguments derive from the same chunked arguments and the other scans pass their own arguments to their pattern; and "
-            "that every np.linspace binds start / stop / num to the like-named variables with the end point included.",
+            "that every np.linspace binds start / stop / num to the like-named variables with the end point included; and that the per-step stubs "
+            "command every motor of the step to the step's position, skipping one only on exact equality with the last commanded target.",
     "technique": "single-source def-use; loop-shape rules; suspicious-argument binding check on np.linspace",
 }
 
@@ -131,7 +230,15 @@ MUTANTS = [
     ("num_points off by one", [(L, '        "num_points": len(cycler),\n        "num_intervals": len(cycler) - 1,', '        "num_points": len(cycler) - 1,\n        "num_intervals": len(cycler) - 1,')], "C25.D1"),
     ("grid_scan shape from the raw args", [(L, '        "shape": tuple(num for motor, start, stop, num, snake in chunk_args),', '        "shape": tuple(args[3::4]),')], "C25.D3"),
     ("x2x second motor over the full range", [(L, "detectors, num, motor1, start, stop, motor2, start / 2, stop / 2, per_step=per_step, md=_md", "detectors, num, motor1, start, stop, motor2, start, stop / 2, per_step=per_step, md=_md")], "C25.D4"),
-    ("snake flags reversed", [(T, "        cyclers.append(c)\n\n    return snake_cyclers(cyclers, snaking)", "        cyclers.append(c)\n\n    return snake_cyclers(cyclers, snaking[::-1])")], "C25.D4"),
+    ("snake flags reversed", [(T, "        c = cycler(motor, steps)\n        cyclers.append(c)\n\n    return snake_cyclers(cyclers, snaking)", "        c = cycler(motor, steps)\n        cyclers.append(c)\n\n    return snake_cyclers(cyclers, snaking[::-1])")], "C25.D4"),
     ("move_per_step without checkpoint", [("plan_stubs.py", "    yield Msg(\"checkpoint\")\n    grp = _short_uid(\"set\")\n    for motor, pos in step.items():", "    grp = _short_uid(\"set\")\n    for motor, pos in step.items():")], "C25.D2"),
 ]
-BENIGN = []
+MUTANTS += [
+    ("move_per_step skips nearly-equal targets", [("plan_stubs.py", "        if pos == pos_cache[motor]:", "        if pos is not None and pos_cache[motor] is not None and abs(pos - pos_cache[motor]) < 1e-8:")], "C25.D5"),
+    ("move_per_step forgets to update the cache", [("plan_stubs.py", "        yield Msg(\"set\", motor, pos, group=grp)\n        pos_cache[motor] = pos", "        yield Msg(\"set\", motor, pos, group=grp)")], "C25.D5"),
+    ("move_per_step caches before deciding", [("plan_stubs.py", "        if pos == pos_cache[motor]:\n            # This step does not move this motor.\n            continue\n        yield Msg(\"set\", motor, pos, group=grp)\n        pos_cache[motor] = pos", "        last, pos_cache[motor] = pos_cache[motor], pos\n        if pos == pos_cache[motor]:\n            # This step does not move this motor.\n            continue\n        yield Msg(\"set\", motor, pos, group=grp)")], "C25.D5"),
+    ("one_1d_step sets a different group than it waits on", [("plan_stubs.py", "        yield Msg(\"set\", motor, step, group=grp)\n        yield Msg(\"wait\", None, group=grp)", "        yield Msg(\"set\", motor, step, group=grp)\n        yield Msg(\"wait\", None, group=_short_uid(\"wait\"))")], "C25.D5"),
+]
+BENIGN = [
+    ("move_per_step written with != instead of continue", [("plan_stubs.py", "        if pos == pos_cache[motor]:\n            # This step does not move this motor.\n            continue\n        yield Msg(\"set\", motor, pos, group=grp)\n        pos_cache[motor] = pos", "        if pos != pos_cache[motor]:\n            yield Msg(\"set\", motor, pos, group=grp)\n            pos_cache[motor] = pos")]),
+]
